@@ -36,7 +36,8 @@ NewObject == [rlp |-> [EmptyLP EXCEPT !.sense = 1], hasQ |-> FALSE, qlp |-> Empt
               hasBasis |-> FALSE, brow |-> <<>>, bcol |-> <<>>,
               status |-> ST_UNKNOWN, hasSol |-> FALSE,
               ftol |-> "1/1000000", otol |-> "1/1000000", iterlimit |-> -1, ensureray |-> FALSE,
-              offsetPar |-> "0", epsz |-> "1/10000000000000000"]
+              offsetPar |-> "0", epsz |-> "1/10000000000000000",
+              tlimit |-> "inf", objlo |-> "-inf", objup |-> "inf"]
 
 -----------------------------------------------------------------------------
 \* One modification applied to one LP.  a = action name, g = argument record.
@@ -181,11 +182,19 @@ SolveFails(s, r, truth, exact) ==
    \cup Fail("EnsureRayRay", s.ensureray /\ r.status = ST_UNBOUNDED => r.hasRay)
    \cup Fail("IterLimit", s.iterlimit >= 0 => r.iters <= s.iterlimit)
    \cup Fail("AbortIterOnlyWithLimit", r.status = ST_ABORT_ITER => s.iterlimit >= 0)
+   \cup Fail("AbortTimeOnlyWithCause", r.status = ST_ABORT_TIME => (BRIsFinite(s.tlimit) \/ r.interrupted))
+   \cup Fail("AbortValueOnlyWithLimit", r.status = ST_ABORT_VALUE => IF lp.sense = -1 THEN BRIsFinite(s.objup) ELSE BRIsFinite(s.objlo))
+   \cup Fail("AbortLeavesBasis", r.status \in {ST_ABORT_ITER, ST_ABORT_VALUE} => r.hasBasis)
    \cup (IF truth.known THEN
            Fail("TruthOptimal", r.status = ST_OPTIMAL => truth.v = "OPT")
            \cup Fail("TruthInfeasible", r.status = ST_INFEASIBLE => truth.v \in {"INF", "PDINF"})
            \cup Fail("TruthUnbounded", r.status = ST_UNBOUNDED => truth.v = "UNB")
            \cup Fail("TruthInfOrUnbd", r.status = ST_INFORUNBD => truth.v # "OPT")
+           \* termination by objective limit only if the optimum really lies beyond the limit in the direction of optimisation
+           \cup Fail("AbortValueTruth", r.status = ST_ABORT_VALUE /\ truth.v = "OPT" =>
+                        IF lp.sense = -1 THEN BRLeq(BRSub(s.objup, BRMulPow2(BRAdd(BRAbs(s.objup), "1"), -20)), truth.val)
+                        ELSE BRLeq(truth.val, BRAdd(s.objlo, BRMulPow2(BRAdd(BRAbs(s.objlo), "1"), -20))))
+           \cup Fail("AbortValueNotFeasible", r.status = ST_ABORT_VALUE => truth.v \in {"OPT", "INF", "PDINF"})
            \cup Fail("TruthValue", r.status = ST_OPTIMAL /\ r.hasSol /\ truth.v = "OPT" /\ cert = {} =>
                        BRLeq(BRAbs(BRSub(r.objval, truth.val)), IF exact THEN "0" ELSE GapBound(lp, r.sol, ft, ot)))
          ELSE {})
